@@ -236,11 +236,12 @@ Definition snaps_like (h : hist) (l : list (Z * snap)) : Prop :=
 
 Record minv (h : hist) (mg : manager) : Prop := {
   mi_recv : rinv (genuine h) (m_recv mg);
-  mi_snaps : snaps_like h (st_snaps (m_store mg))
+  mi_snaps : snaps_like h (st_snaps (m_store mg));
+  mi_seen : forall t, newest_seen (m_recv mg) = Some t -> t <= hist_last h
 }.
 
 Lemma minv_init h : minv h manager_new.
-Proof. split; [apply rinv_new|intros t X []]. Qed.
+Proof. split; [apply rinv_new|intros t X []|intros t H; discriminate]. Qed.
 
 Definition fine_out {E A} (r : res E A) : Prop := match r with Ok _ | Err _ => True | _ => False end.
 
@@ -333,8 +334,8 @@ Theorem manager_feed_genuine h mg x m :
   /\ (forall e, fst (snd r) = Err e -> refusal e = true)
   /\ only_receiver_warnings (snd (snd r)) = true.
 Proof.
-  intros Hok [Hr Hs] Hg Hin. pose proof Hg as (e & He & Ex).
-  destruct (Hok _ e He) as [E _].
+  intros Hok [Hr Hs Hseen] Hg Hin. pose proof Hg as (e & He & Ex).
+  destruct (Hok _ e He) as [E Hle].
   assert (Hb32 : is_i32 (x_base x) = true).
   { rewrite Ex. cbn [x_base x_of]. pose proof (eo_base _ _ _ E). pose proof (eo_tick _ _ _ E).
     unfold is_i32, i32_min, i32_max in *. lia. }
@@ -348,9 +349,13 @@ Proof.
     - destruct Hin as [<-|[]]. reflexivity.
     - destruct Hin as [<-|[]]. reflexivity.
     - unfold multi_msgs in Hin. apply in_map_iff in Hin. destruct Hin as [i [<- _]]. reflexivity. }
+  assert (Hseen' : forall t, newest_seen (fst (recv_step (m_recv mg) m)) = Some t -> t <= hist_last h).
+  { intros t Ht. destruct (newest_seen_step (m_recv mg) m) as [Hn|Hn]; rewrite Hn in Ht.
+    - apply Hseen, Ht.
+    - injection Ht as <-. rewrite Htick. exact Hle. }
   cbv zeta. unfold manager_feed.
   pose proof (recv_no_fuel (m_recv mg) m) as Hnf.
-  destruct (recv_step (m_recv mg) m) as [r' [res rws]]. cbn [fst snd] in Hr', Hnp, Hrd, Hnf, Hre.
+  destruct (recv_step (m_recv mg) m) as [r' [res rws]]. cbn [fst snd] in Hr', Hnp, Hrd, Hnf, Hre, Hseen'.
   destruct res as [[rd|]|e0|s0|]; try discriminate; try (exfalso; apply Hnf; reflexivity).
   - (* the receiver hands a complete delta to the storage *)
     specialize (Hrd rd eq_refl). subst rd.
@@ -361,7 +366,7 @@ Proof.
     destruct (add_delta_genuine h (m_store mg) (x_tick x) e d Hok Hs He Ed) as (Hs' & Hf & HX & HE & HW).
     destruct (add_delta (m_store mg) (Some (Snap.crc (sn_raw (h_snap e)))) (h_base e) (x_tick x) d) as [st' [r2 ws2]].
     cbn [fst snd] in *. subst ws2. cbn [map app]. rewrite app_nil_r.
-    split; [split; [exact Hr'|exact Hs']|].
+    split; [split; [exact Hr'|exact Hs'|exact Hseen']|].
     destruct r2 as [X|e2|s2|]; cbn [lift_st fst snd]; try contradiction.
     + split; [exact I|]. split; [exact Htick|].
       split; [intros X0 [= <-]; exists e; split; [exact He|apply HX; reflexivity]|].
@@ -418,9 +423,10 @@ Proof.
     pose proof (si_hist _ Is) as Hok.
     rewrite Ht. split; cbn [l_sender l_mgr l_chan l_accepted sd_hist].
     + exact Is'.
-    + destruct Im as [Hr Hsn]. split.
+    + destruct Im as [Hr Hsn Hseen]. split.
       * apply (rinv_mono (genuine (sd_hist (l_sender s)))); [|exact Hr]. intros y Hy. apply genuine_cons; assumption.
       * apply snaps_like_cons; assumption.
+      * intros t Hnt. specialize (Hseen t Hnt). cbn [hist_last]. lia.
     + intros m Hin. apply in_app_or in Hin. destruct Hin as [Hin|Hin].
       * destruct (Ic m Hin) as (y & Hy & Hmy). exists y. split; [apply genuine_cons; assumption|exact Hmy].
       * rewrite Hm in Hin. eexists. split; [|exact Hin].
@@ -453,9 +459,10 @@ Proof.
     eexists _, _. split; [reflexivity|]. split; assumption.
   - (* ResetMgr *)
     eexists _, _. split; [reflexivity|]. split; cbn [l_sender l_mgr l_chan l_accepted]; try assumption.
-    destruct Im as [[Hwf _] _]. split; cbn [manager_reset m_recv m_store storage_reset st_snaps].
+    destruct Im as [[Hwf _] _ _]. split; cbn [manager_reset m_recv m_store storage_reset st_snaps].
     + apply rinv_idle; reflexivity.
     + intros t X [].
+    + intros t H. discriminate.
 Qed.
 
 (* what a Deliver can answer in a state of the invariant *)
@@ -468,6 +475,81 @@ Proof.
   destruct (manager_feed_genuine _ (l_mgr s) x m (si_hist _ Is) Im Hg Hmx) as (_ & _ & _ & _ & HE & HW).
   unfold deliver. destruct (manager_feed sz (l_mgr s) m) as [mg' [r0 ws0]]. cbn [fst snd] in *.
   destruct r0 as [[X|]|e0|s0|]; try discriminate; intros [= _ _ <- <- _]; split; assumption.
+Qed.
+
+
+(* ---------- progress: a full snapshot that fits one message is accepted ---------- *)
+Lemma add_delta_full st crc tick d X : front_tick st < tick ->
+  snap_read_with_delta snap_empty d = (Ok X, []) -> crc = Snap.crc (sn_raw X) ->
+  exists st', add_delta st (Some crc) (-1) tick d = (st', (Ok X, [])) /\ st_ack st' = Some tick.
+Proof.
+  intros Hf Eap ->. unfold add_delta. replace (tick <=? front_tick st) with false by lia.
+  replace (0 <=? -1) with false by reflexivity.
+  replace ((-1 <? 0) && negb (-1 =? -1)) with false by reflexivity.
+  destruct (match st_free st with [] => [FClean snap_empty] | _ :: _ => st_free st end) as [|f0 fr] eqn:Ef.
+  { destruct (st_free st); discriminate. }
+  rewrite Eap, Z.eqb_refl. cbn [negb app map].
+  destruct (MAX_STORED_SNAPSHOT <? zlen ((tick, X) :: st_snaps st)).
+  - destruct (last_opt_some ((tick, X) :: st_snaps st) ltac:(discriminate)) as [[tl sl] El]. rewrite El.
+    eexists. split; reflexivity.
+  - eexists. split; reflexivity.
+Qed.
+
+Lemma nparts_one data : data <> [] -> (length data <= 900)%nat -> nparts data = 1%nat.
+Proof.
+  intros Hne Hlen. assert (HP : PACK = 900%nat) by reflexivity.
+  pose proof (nparts_le data 1) as H1. rewrite HP in H1.
+  assert (nparts data <> 0%nat) by (intros E0; apply nparts_zero in E0; contradiction). lia.
+Qed.
+
+Lemma seen_can_receive r t T : (forall t0, newest_seen r = Some t0 -> t0 <= t) -> t < T -> can_receive r T = true.
+Proof.
+  intros Hs Hlt. unfold can_receive, newest_seen in *. destruct (r_cur r) as [c|].
+  - specialize (Hs _ eq_refl). lia.
+  - destruct (r_prev r) as [p|]; [specialize (Hs _ eq_refl); lia|reflexivity].
+Qed.
+
+(* after a SendTick whose delta is taken against the empty snapshot (the client acknowledged nothing,
+   or its acknowledgement was cleared and -1 came through) and fits one message: delivering that
+   message - whatever else has happened on the link - makes the Manager accept the snapshot and
+   acknowledge its tick *)
+Theorem fresh_single_accepted s s1 x :
+  linv s -> api_ok sz s SendTick = true -> lstep sz s SendTick = Ok (s1, OSent x) ->
+  sn_base x = -1 -> (length (sn_bytes x) <= 900)%nat ->
+  exists s2 X ws,
+    lstep sz s1 (Deliver (length (l_chan s))) = Ok (s2, ODeliver (sn_tick x) (Ok (Some X), ws) (Some (sn_tick x)))
+    /\ like (sn_snap x) X.
+Proof.
+  intros [Is Im Ic Ia] Hapi Hstep Hbase Hlen. cbn [api_ok] in Hapi.
+  destruct (sender_send_ok (l_sender s) Is Hapi) as (st' & x' & Es & Ht & Hlt & Hm & Is').
+  cbn [lstep] in Hstep. rewrite Es in Hstep. cbn [bind] in Hstep. injection Hstep as <- <-.
+  set (e := {| h_snap := sn_snap x'; h_base := sn_base x'; h_bytes := sn_bytes x' |}) in *.
+  set (T := sd_tick (l_sender s)) in *.
+  destruct (si_hist _ Is' T e (aget_cons_same _ _ _)) as [E _]. cbn [sd_hist] in E.
+  pose proof (eo_ne _ _ _ E) as Hne. cbn [e h_bytes] in Hne.
+  pose proof (eo_tick _ _ _ E) as HT.
+  destruct (eo_apply _ _ _ E) as (d & Ed & Hap). cbn [e h_bytes h_base h_snap] in Ed, Hap.
+  destruct (Hap snap_empty (or_introl (conj Hbase eq_refl))) as (X & Eap & HL).
+  destruct (like_same _ _ HL) as (_ & _ & Hcrc & _).
+  (* the one message *)
+  assert (Hmsg : sn_msgs x' = [MSnapSingle T (wrap32 (T - -1)) (Snap.crc (sn_raw (sn_snap x'))) (sn_bytes x')]).
+  { rewrite Hm. unfold x_msgs, xfer_msgs, x_of, x_dt. cbn [x_tick x_base x_crc x_data e h_base h_snap h_bytes].
+    rewrite (nparts_one _ Hne Hlen), Hbase. reflexivity. }
+  cbn [lstep l_chan]. rewrite Hmsg.
+  rewrite nth_error_app2 by lia. rewrite Nat.sub_diag. cbn [nth_error].
+  (* the receiver takes it *)
+  assert (Hcan : can_receive (m_recv (l_mgr s)) T = true).
+  { apply (seen_can_receive _ (hist_last (sd_hist (l_sender s)))); [apply (mi_seen _ _ Im)|exact Hlt]. }
+  (* the storage takes it *)
+  assert (Hfront : front_tick (m_store (l_mgr s)) < T).
+  { unfold front_tick. destruct (st_snaps (m_store (l_mgr s))) as [|[t0 X0] r] eqn:Esn; [lia|].
+    destruct (mi_snaps _ _ Im t0 X0) as (e0 & He0 & _); [rewrite Esn; left; reflexivity|].
+    destruct (si_hist _ Is t0 e0 He0) as [_ Hle]. lia. }
+  destruct (add_delta_full (m_store (l_mgr s)) (Snap.crc (sn_raw (sn_snap x'))) T d X Hfront Eap (eq_sym Hcrc)) as (st2 & Ead & Hack).
+  unfold deliver, manager_feed. cbn [l_mgr recv_step]. unfold Receiver.snap_single. rewrite Hcan. cbn [negb].
+  unfold mgr_add_delta. cbn [rd_data_and_crc rd_delta_tick rd_tick set_result finish_delta init_delta r_result app].
+  rewrite Ed. rewrite wrap32_sub_sub by reflexivity. rewrite Ead. cbn [lift_st msg_tick].
+  eexists _, X, _. split; [|exact HL]. rewrite Ht. unfold manager_ack. cbn [m_store]. rewrite Hack. reflexivity.
 Qed.
 
 Theorem lrun_linv tr : forall s, linv s -> follows_api sz s tr = true ->
